@@ -19,6 +19,7 @@ at BYTE offsets measured on the NOT lower-cased strings.  Core Lean only.
 | `child(stripCount)`, `Child()`                    | `TN.childN`, `TN.child`                |
 | `Parent()`                                        | `TN.parent`                            |
 | `typedNameFromMapKey` (of a freshly computed key) | `TN.fromFreshKey`                      |
+| `Equals` (`t.MapKey() == tn.MapKey()`)            | `KOp.eq` in `runK`                     |
 | Go string = bytes; `len`, `s[i:j]` (panics when out of range) | `enc` (UTF-8), `List.take/drop` guarded by `fault` |
 
 Strings are `List Char` here and become bytes through `enc` (UTF-8, written out below so that no library lemma about
@@ -167,6 +168,7 @@ def TN.fromFreshKey (t : TN) : Option TN :=
 
 inductive KOp where
   | key | name | qual | parts | child | parent | fromkey
+  | eq        -- `Equals(fresh typed name of the same three strings)`: the two `MapKey()`s are compared (and this one cached)
   deriving DecidableEq, Repr
 
 inductive KOut where
@@ -184,6 +186,7 @@ inductive KOut where
 def runK (t : TN) : List KOp → List KOut
   | [] => []
   | .key :: r => let (t', k) := t.mapKey; .key k :: runK t' r
+  | .eq :: r => let (t', k) := t.mapKey; .bool (k == t.freshKey) :: runK t' r
   | .name :: r => .name t.name :: runK t r
   | .qual :: r => .bool t.isQualified :: runK t r
   | .parts :: r =>
